@@ -739,7 +739,18 @@ func (s *Sim) opC17Relay() {
 				sig = "pending-version-beyond-relay-epoch-plus-blocks-to-save"
 				r.Probe("c17_pending_version_beyond_charge_range")
 			}
-			r.Check(a.used == want, "c17-project-used-cu", sig, "%s of %d CU (key %s, epoch %d, resolved project %s snapshot %d, accepted=%v): project %s as of block %d (snapshot %d) has UsedCu %d -> %d, expected %d [observed blocks %v]", kind, total, signer.Name, epoch, m.pname(resolved.Index), resolved.Snapshot, accepted, m.pname(id), a.block, a.snap, b.used, a.used, want, obsBlocks)
+			if accepted && sig == "resolved-project" && a.used == b.used {
+				// names one specific situation: a version scheduled for the next epoch was created before a
+				// monthly snapshot and still carries the previous snapshot number, so a version with a
+				// newer snapshot lies between the relay's epoch and it (lava stops charging there)
+				for j := 0; j < i; j++ {
+					if before[id][j].found && before[id][j].snap > b.snap {
+						sig = "pending-version-older-snapshot-than-a-version-before-it"
+						r.Probe("c17_pending_version_with_stale_snapshot")
+					}
+				}
+			}
+			r.Check(a.used == want, "c17-project-used-cu", sig, "%s of %d CU (key %s, epoch %d, resolved project %s snapshot %d, accepted=%v): project %s as of block %d (snapshot %d) has UsedCu %d -> %d, expected %d [observed blocks %v; before %v after %v (block found snapshot usedCu)]", kind, total, signer.Name, epoch, m.pname(resolved.Index), resolved.Snapshot, accepted, m.pname(id), a.block, a.snap, b.used, a.used, want, obsBlocks, before[id], after)
 		}
 		if accepted && id == resolved.Index {
 			other := false
